@@ -101,6 +101,13 @@ CHECKS = {
              "the real normalize_game/denormalize_game are run on exact integer/dyadic/additive/negative/graph games (outputs bound by certified integer intervals of out*surplus) "
              "and on every registered generator family in both representations (2^-20 grid, tolerance growing with the condition number), including nearly-additive float games.",
         note="tolerance is trivial beyond condition number 2^26; a surplus within 2n*2^-52*scale of zero must give the zero game"),
+    "C18": dict(
+        level="exploration", design="§5 C18", technique="exhaustive enumeration of the finite domain by a driver, every recorded result judged by TLC against the TLA+ finite-set semantics (Trace_Coalitions); algebra self-consistency model-checked (MC_Coal)",
+        text="For n=1..8 (quick) / 1..10 (thorough) every coalition's players, size, complement, sub- and super-coalition enumerations in the object form and the id-array form, "
+             "all ordered pairs (n<=4 / n<=6, sampled beyond) for union/intersection/difference/containment/disjointness/equality, every (coalition, player) for add/remove/membership, "
+             "and the four class predicates on all integer games with values in {-1,0,1} on 2 and 3 players, random games on 4 and 5 players and crafted near-tolerance games "
+             "are recorded from the real code; TLC compares each with SetOf/IdOf finite-set semantics and the textbook definitions.",
+        note="transcription of pure functions into TLA+ with TLC as oracle; exhaustive for the stated n"),
 }
 
 NOT_YET = "check not built yet (build in progress; see DESIGN.md §5 for the plan)"
